@@ -3,15 +3,17 @@
 pub enum Role { LOCKFILE, STAGING_DIR, CAS_DIR, DB_DIR, QUARANTINE_DIR, CAS_SUBDIR, DIR_OF_BLOB,
     STAGING, BLOB, QUARANTINE, WALSEG, OLDSEG, SNAP_TMP, SNAP, TMP, TMP_FILE, TARGET, SETTINGS, INVALID_OR_STAGING_LEFTOVER, UNKNOWN }
 
-pub enum F { Intents, StateW, StateR, Wal, CsApplied, CsFiltered, CsOrphanOk, SyncMode, StagingFlushed, StagingSynced, BlobAtFinal, IntentRegistered, GuardAlive, WalWritten, WalFlushed, WalDurable, Applied, TmpWritten, TmpSynced, TargetRenamed, SnapSaved, NewsegCreated, NewsegSynced, Deleted, ToDeleteNonempty, OwnsDirlock, StoredExists, SettingsMatch, WantPrecreate, DirsPrecreated, Looked, RenameTried, SegExists, MustRollover, IntentConsumed, CsIndexChecked }
+pub enum F { Intents, StateW, StateR, Wal, CsApplied, CsFiltered, CsOrphanOk, SyncMode, StagingFlushed, StagingSynced, BlobAtFinal, IntentRegistered, GuardAlive, WalWritten, WalFlushed, WalDurable, Applied, TmpWritten, TmpSynced, TargetRenamed, SnapSaved, NewsegCreated, NewsegSynced, Deleted, ToDeleteNonempty, OwnsDirlock, StoredExists, SettingsMatch, WantPrecreate, DirsPrecreated, Looked, RenameTried, SegExists, MustRollover, IntentConsumed, CsIndexChecked, InReadApi, CbArg, BlobTouched }
 /// the World is the set of flags that are currently true (see DESIGN.md Appendix A for their meaning)
 pub struct World { pub s: Set<F> }
 impl World {
     pub open spec fn has(self, f: F) -> bool { self.s.contains(f) }
     pub open spec fn set(self, f: F, v: bool) -> World { World { s: if v { self.s.insert(f) } else { self.s.remove(f) } } }
 }
-pub open spec fn same(a: World, b: World) -> bool { forall|f: F| #![trigger a.s.contains(f)] #![trigger b.s.contains(f)] a.s.contains(f) == b.s.contains(f) }
-pub open spec fn frame(a: World, b: World, fs: Set<F>) -> bool { forall|f: F| #![trigger a.s.contains(f)] #![trigger b.s.contains(f)] !fs.contains(f) ==> (a.s.contains(f) == b.s.contains(f)) }
+/// observer flags record that something happened (a blob file was accessed); they are not part of the protocol state
+pub open spec fn is_observer(f: F) -> bool { f == F::BlobTouched }
+pub open spec fn same(a: World, b: World) -> bool { forall|f: F| #![trigger a.s.contains(f)] #![trigger b.s.contains(f)] !is_observer(f) ==> a.s.contains(f) == b.s.contains(f) }
+pub open spec fn frame(a: World, b: World, fs: Set<F>) -> bool { forall|f: F| #![trigger a.s.contains(f)] #![trigger b.s.contains(f)] !fs.contains(f) && !is_observer(f) ==> (a.s.contains(f) == b.s.contains(f)) }
 #[verifier::external_body] pub fn nondet() -> bool { unimplemented!() }
 
 /// no lock held (and therefore no critical-section-scoped fact alive)
@@ -99,7 +101,8 @@ pub open spec fn is_dir_role(r: Role) -> bool { r == Role::STAGING_DIR || r == R
     requires r == Role::WALSEG, old(w).has(F::OwnsDirlock),
     ensures *final(w) == *old(w) { unimplemented!() }
 #[verifier::external_body] pub fn ev_open_read(w: &mut World, r: Role) -> (ok: bool)
-    ensures *final(w) == *old(w) { unimplemented!() }
+    requires /*blob_access_in_read_api_under_index_guard*/ r == Role::BLOB ==> (old(w).has(F::StateR) || !old(w).has(F::InReadApi) || old(w).has(F::CbArg)),
+    ensures *final(w) == (if r == Role::BLOB { old(w).set(F::BlobTouched, true) } else { *old(w) }) { unimplemented!() }
 #[verifier::external_body] pub fn ev_open_other(w: &mut World, r: Role) -> (ok: bool)
     requires /*unexplained_open_mode*/ false,
     ensures *final(w) == *old(w) { unimplemented!() }
@@ -109,21 +112,37 @@ pub open spec fn is_dir_role(r: Role) -> bool { r == Role::STAGING_DIR || r == R
         /*never_truncate_existing_segment*/ !old(w).has(F::SegExists),
     ensures *final(w) == (old(w).set(F::NewsegCreated, true).set(F::NewsegSynced, false)) { unimplemented!() }
 #[verifier::external_body] pub fn ev_file_open(w: &mut World, r: Role) -> (ok: bool)
-    ensures *final(w) == *old(w) { unimplemented!() }
+    requires /*blob_access_in_read_api_under_index_guard*/ r == Role::BLOB ==> (old(w).has(F::StateR) || !old(w).has(F::InReadApi) || old(w).has(F::CbArg)),
+    ensures *final(w) == (if r == Role::BLOB { old(w).set(F::BlobTouched, true) } else { *old(w) }) { unimplemented!() }
 #[verifier::external_body] pub fn ev_fs_read(w: &mut World, r: Role) -> (ok: bool)
-    ensures *final(w) == *old(w) { unimplemented!() }
+    requires /*blob_access_in_read_api_under_index_guard*/ r == Role::BLOB ==> (old(w).has(F::StateR) || !old(w).has(F::InReadApi) || old(w).has(F::CbArg)),
+    ensures *final(w) == (if r == Role::BLOB { old(w).set(F::BlobTouched, true) } else { *old(w) }) { unimplemented!() }
 #[verifier::external_body] pub fn ev_fs_stat(w: &mut World, r: Role) -> (ok: bool)
-    ensures *final(w) == *old(w) { unimplemented!() }
+    requires /*blob_access_in_read_api_under_index_guard*/ r == Role::BLOB ==> (old(w).has(F::StateR) || !old(w).has(F::InReadApi) || old(w).has(F::CbArg)),
+    ensures *final(w) == (if r == Role::BLOB { old(w).set(F::BlobTouched, true) } else { *old(w) }) { unimplemented!() }
 #[verifier::external_body] pub fn ev_fs_read_dir(w: &mut World, r: Role) -> (ok: bool)
     ensures *final(w) == *old(w) { unimplemented!() }
 #[verifier::external_body] pub fn ev_read_at(w: &mut World, r: Role) -> (ok: bool)
-    ensures *final(w) == *old(w) { unimplemented!() }
+    requires /*blob_access_in_read_api_under_index_guard*/ r == Role::BLOB ==> (old(w).has(F::StateR) || !old(w).has(F::InReadApi) || old(w).has(F::CbArg)),
+    ensures *final(w) == (if r == Role::BLOB { old(w).set(F::BlobTouched, true) } else { *old(w) }) { unimplemented!() }
 #[verifier::external_body] pub fn ev_tempfile_new_in(w: &mut World, r: Role) -> (ok: bool)
     requires /*staging_files_only_in_staging_dir*/ r == Role::STAGING_DIR,
     ensures *final(w) == *old(w) { unimplemented!() }
 /// `temp.keep()` / `persist(..)` / `into_parts()`: the staging file would survive an abort
 #[verifier::external_body] pub fn ev_tempfile_detached(w: &mut World)
     requires /*staging_file_delete_on_drop_never_disabled*/ false,
+    ensures *final(w) == *old(w) { unimplemented!() }
+/// `return Err(..)` in open / load / replay that is not explained by a failed callee or a tracked condition
+#[verifier::external_body] pub fn ev_unexplained_refusal(w: &mut World)
+    requires /*open_refused_only_for_documented_reasons*/ false,
+    ensures *final(w) == *old(w) { unimplemented!() }
+/// a second descriptor for the LOCK file (try_clone / raw fd): the flock then outlives the store
+#[verifier::external_body] pub fn ev_lock_handle_duplicated(w: &mut World)
+    requires /*dirlock_descriptor_never_duplicated*/ false,
+    ensures *final(w) == *old(w) { unimplemented!() }
+/// Condvar::wait / blocking recv / park in an API path
+#[verifier::external_body] pub fn ev_blocking_wait(w: &mut World)
+    requires /*no_unbounded_wait_in_api_paths*/ false,
     ensures *final(w) == *old(w) { unimplemented!() }
 /// `mem::forget(x)` / `ManuallyDrop::new(x)`: the value's destructor (unlock, staging-file removal, intent revert) never runs
 #[verifier::external_body] pub fn ev_forget_value(w: &mut World)
@@ -204,6 +223,9 @@ pub open spec fn is_dir_role(r: Role) -> bool { r == Role::STAGING_DIR || r == R
 /// successful exit of pre_create_all_cas_directories
 #[verifier::external_body] pub fn ev_dirs_precreated(w: &mut World)
     ensures *final(w) == (old(w).set(F::DirsPrecreated, true)) { unimplemented!() }
+/// bookkeeping around the body of a closure that is passed as an argument (it runs inside the callee, as its callback)
+#[verifier::external_body] pub fn set_cbarg(w: &mut World, v: bool)
+    ensures *final(w) == old(w).set(F::CbArg, v) { unimplemented!() }
 /// exec read of a (constant) World flag, for tracked conditions
 #[verifier::external_body] pub fn rd(w: &World, f: F) -> (b: bool)
     ensures b == w.has(f) { unimplemented!() }
